@@ -365,6 +365,17 @@ def seq_optimize_arms(ctx):
             _rec(d, "single", r == "Option::unwrap(<IntoIter<T, A> as Iterator>::next(a1.operations))", "a one-element sequence must optimise to its element; found %s" % r[:80], loc)
         else:
             good = r.startswith("op(Sequence::Sequence{operations: Iterator::collect(Iterator::map(Iterator::enumerate(Iterator::cloned(a1.operations))") or ("Iterator::map(Iterator::enumerate(" in r and "a1.operations" in r and "rev" not in r)
+            if not good and p.end.startswith("loop"):
+                # the loop form: every turn of a forward walk over a1.operations appends exactly one operation
+                calls = [(e[1].split("::")[-1], [_sh(strip_ver(render(x))) for x in e[2]]) for e in p.effects if e[0] == "call"]
+                pu = [c for c in calls if c[0] in ("push", "insert", "extend", "push_front", "append")]
+                drv = [g for g in gs if re.match(r"^variant\((?:<[^()]*> as Iterator>::)?next\((?:Iterator::peekable\()?(?:[\w:<> ,]*into_iter\()?a1\.operations\)*\)\)=Some$", g)]
+                turn_ok = len(pu) == 1 and pu[0][0] == "push" and re.match(r"^Vec::(with_capacity\(.*\)|new\(\))$", pu[0][1][0]) and bool(drv) and not any(c[0] in ("rev", "reverse", "swap", "sort", "sort_by") for c in calls)
+                _rec(d, "many", bool(turn_ok), "in a turn of the loop that rebuilds a longer sequence exactly one operation must be appended, walking a1.operations forwards; calls %s" % [c[0] for c in calls][:8], loc)
+                continue
+            if not good and p.end == "return" and re.match(r"^op\(Sequence::Sequence\{operations: Vec::(with_capacity\(.*\)|new\(\))\}\)$", r) and any(re.match(r"^variant\(.*next\(.*a1\.operations.*\)\)=None$", g) for g in gs):
+                _rec(d, "many", True, "", loc)  # the vector filled by the turns above, returned when the walk is exhausted
+                continue
             _rec(d, "many", good, "a longer sequence must be rebuilt from its operations in order; found %s" % r[:140], loc)
     for k in ("empty", "single", "many"):
         if k not in d:
